@@ -1,15 +1,9 @@
 """Per-property configuration of the checks (what is generated, how much, what a disagreement means)."""
 
-COMMON_TB = [
-    "Coq 8.16.1 kernel (coqc; coqchk in the thorough tier); vm_compute used to evaluate the model on the harness cases; no native_compute",
-    "no axioms declared by the development; Print Assumptions under every property theorem must be 'Closed under the global context' or list only std-lib axioms named in DESIGN.md section 6",
-    "hand-written Gallina model tied to /repo by the correspondence run of this check (Go harness built against the working tree; generators, projections and comparator are trusted)",
-    "vtrans (go/ast + go/constant) regenerates coq/gen/Consts.v from the Go constants on every run",
-]
+from common_tb import COMMON_TB
 
-PROPS = {}
 
-PROPS["C16"] = dict(
+CFG = dict(
     id="C16", tie="Tie.C16", n_quick=3000, n_thorough=20000, thorough_seeds=3,
     rule="structure-aware: every valid encoding (TxMetadata, KVMetadata, TxHeader v0/v1, ExportTx bytes of real "
          "transactions) mutated at every truncation point / boundary byte values / off-by-one length edits / "
@@ -24,3 +18,9 @@ PROPS["C16"] = dict(
     ],
     assumptions=["each Go slice expression is transliterated by hand into a checked primitive (at_/from_/sub_/uint_)"],
 )
+
+
+def classify(c):
+    """True when the recorded behaviour of the implementation on this case is, by itself, a violation of the
+    property statement (arbitrary bytes give an error or a value: never a panic, never a partial effect)."""
+    return bool(c.get("panic")) or (bool(c.get("err")) and bool(c.get("changed")))
